@@ -269,7 +269,7 @@ class C01(core.Check):
          'relative:from-end/forward', 'relative:from-end/backward', 'negative-in-non-byte-multiple-field',
          'address:sliced', 'relative:curly', 'decorator:prefix', 'decorator:postfix', 'specific-operands',
          'twin-statement:operand-names-differ-in-case-only', 'sets-and-specific-in-one-variant', 'step-of-a-macro',
-         'step-of-a-macro/relative:from-end/forward', 'step-of-a-macro/relative:from-end/backward'] +
+         'step-of-a-macro/relative:from-end/forward', 'step-of-a-macro/relative:from-end/backward', 'index-code:negative'] +
         [f'grid:{c}/{e}/{a}' for c in ('1', '2-7', '8', '9-15', '16', '17-31', '32', '33-63', '64')
          for e in ('big', 'little') for a in ('aligned', 'packed')])}
 
@@ -347,6 +347,32 @@ class C01(core.Check):
                               'sig': layout_sig(fl)})
                 addr += len(b)
             yield self._case(obj, lines, 'json', 'sets+specific')
+        # the index of an (indirect) indexed register as an operand code of its own (numeric_bytecode, also negative; an
+        # enumeration of numbers mapping to codes): its bits sit next to the register's code and touch nothing else
+        for typ, fmt_ in (('indexed_register', '{r}+{x}'), ('indirect_indexed_register', '[{r} + {x}]')):
+            for isz, rsz, opc_bits in ((4, 3, 1), (3, 2, 3), (5, 4, 7), (2, 6, 8)):
+                obj = isamod.base_isa(address_size=16, endian='big')
+                obj['general']['registers'] = ['x', 'sp']
+                obj['operand_sets'] = {'ix': {'operand_values': {
+                    'ox': {'type': typ, 'register': 'x', 'bytecode': {'value': (1 << rsz) - 2, 'size': rsz},
+                           'index_operands': {'nb': {'type': 'numeric_bytecode', 'bytecode': {'size': isz, 'min': -(1 << (isz - 1)), 'max': (1 << isz) - 1}}}},
+                    'osp': {'type': typ, 'register': 'sp', 'bytecode': {'value': 1, 'size': rsz},
+                            'index_operands': {'nb': {'type': 'numeric_bytecode', 'bytecode': {'size': isz, 'min': -(1 << (isz - 1)), 'max': (1 << isz) - 1}}}}}}}
+                obj['instructions'] = {'lda': {'bytecode': {'value': 1, 'size': opc_bits}, 'operands': {'count': 1, 'operand_sets': {'list': ['ix']}}}}
+                vals = sorted({0, 1, (1 << isz) - 1, -1, -(1 << (isz - 1)), (1 << (isz - 1)) - 1, -2 if isz > 2 else -1})
+                lines = [{'k': 'const', 'text': f'C01_M{-v} = 0 - {-v}'} for v in vals if v < 0] + [{'k': 'org', 'text': '.org 0', 'addr': 0}]
+                addr = 0
+                for oid, reg in (('ox', 'x'), ('osp', 'sp')):
+                    for v in vals:
+                        st = {'mn': 'lda', 'variant': 0, 'spec': None, 'ops': [{'id': oid, 'index': {'id': 'nb', 'val': v}}]}
+                        b, fl = encode.encode(obj, st, addr, {'GLOBAL': (0, 65535)})
+                        txt = 'lda ' + fmt_.format(r=reg, x=(v if v >= 0 else f'C01_M{-v}'))
+                        lines.append({'k': 'instr', 'text': txt, 'addr': addr, 'size': len(b), 'bytes': b.hex(),
+                                      'fields': [[a, s_, al, e, k] for a, s_, al, e, k in fl],
+                                      'tags': ['index-given-as-an-operand-code', 'index-code:negative' if v < 0 else 'index-code:non-negative'],
+                                      'sig': layout_sig(fl)})
+                        addr += len(b)
+                yield self._case(obj, lines, 'json', 'index-code')
         # seed-independent prelude + seeded random programs
         n_pre = 250
         n_rand = 700 if tier == 'quick' else 12000
